@@ -119,7 +119,9 @@ def run(ctx):
                 ctx.cov.setdefault("harness_problems", []).append({"seed": c["seed"], "mode": c["mode"], "problems": c["problems"][:300]})
                 break
         # (1) model prediction == observation, for every history
-        pairs = [(c["query"], c["observed"]) for c in cases]
+        # ("script" cases -- captured locals, nested lambdas, imports, the whole-program optimizer -- have their own oracle and
+        #  no event history: they only take part in the direct comparison below)
+        pairs = [(c["query"], c["observed"]) if c["mode"] != "script" else ("[]", "[]") for c in cases]
         fails, err = vlib.coq_eval_cases("c05", IMPORTS, "session_obs", "obs_eqb", pairs, shard=40)
         if err:
             ctx.broken.append("correspondence C05: model evaluation failed")
@@ -183,10 +185,17 @@ def run(ctx):
                        "closures, natives (abs, floor, type) and non-callables, rebinding of the builtin name `type`, calls from "
                        "top-level and body sites; opt level 1 (REPL default) and 0 (every 7th case); every history is checked "
                        "against the reference interpreter of the property (direct oracle) and, exactly, against the Coq model; "
-                       "distinct = distinct sources with at least one top-level call")
+                       "distinct = distinct sources with at least one top-level call; " + SCRIPT_RULE)
 
 
 IMPORTS_S = "From Aelys Require Import Extracted.CallCacheConsts Extracted.ReplShape Model.Session.\nOpen Scope Z_scope."
+
+
+SCRIPT_RULE = ("script mode (20% of the cases): whole programs with their own oracle -- (a) one name for a global function and for a local / parameter "
+               "captured by closures that call it, the captured one reassigned between calls (also with the global defined by an earlier REPL input); "
+               "(b) files: a name bound by an import, a caller declared first and called before and after the name is redefined further down by a "
+               "trivial function after effectful statements, padding declarations in between, run through run_file (whole-program optimizer, -O0..-O3); "
+               "(c) a capturing closure in a global that creates nested lambdas / functions, called 3-6 times from one site")
 
 
 def sessions_tie(ctx):
